@@ -597,7 +597,31 @@ func (x *qtrans) envParams(ps []qparam) ([]qparam, []string, []string) {
 }
 
 func (x *qtrans) calleeOfShape(sh qshape, what string) qcallee {
-	return qcallee{head: sh.lean + " env", recvMut: sh.recvMut, recvWrap: "{X}", params: sh.params, res: sh.res, aborts: sh.aborts, what: what}
+	head := sh.lean + " env"
+	if sh.fuel {
+		head += " " + x.depthArg(what)
+	}
+	if sh.recKey != "" {
+		// a dispatcher that reaches a recursive implementation through its parameter `rec_`
+		if x.t.Rec && x.t.Func == sh.recKey {
+			head += " rec_"
+		} else {
+			impl, ok := qShapes[sh.recKey]
+			if !ok || !impl.ok {
+				fail("%s: %s is not a translated target listed before this one", what, sh.recKey)
+			}
+			head += " (" + impl.lean + " env " + x.depthArg(what) + ")"
+		}
+	}
+	return qcallee{head: head, recvMut: sh.recvMut, recvWrap: "{X}", params: sh.params, res: sh.res, aborts: sh.aborts, what: what}
+}
+
+// depthArg: the depth argument handed to a recursive callee (only targets that have one can call such a function)
+func (x *qtrans) depthArg(what string) string {
+	if !x.t.Rec && !x.t.Fuel {
+		fail("call of %s, which recurses over the slab tree: the target must be marked Fuel", what)
+	}
+	return "depth_"
 }
 
 func (x *qtrans) call(e *ast.CallExpr, en qenv) (qv, *qeffect) {
@@ -687,6 +711,26 @@ func (x *qtrans) call(e *ast.CallExpr, en qenv) (qv, *qeffect) {
 	switch bi.Kind {
 	case "obj":
 		key := bi.Struct + "." + m
+		if em, isEnv := x.u.EnvMethods[key]; isEnv {
+			fd := funcs[key]
+			if fd == nil {
+				fail("method %s not found in the package", key)
+			}
+			ps, variadic := qParamsOf(fd.Type)
+			if variadic {
+				fail("variadic method %s", key)
+			}
+			rts := fieldTypes(fd.Type.Results)
+			ps, pts, states := x.envParams(ps)
+			name := bi.Struct + "_" + m
+			doc := fmt.Sprintf("`%s` (%s), a parameter: not translated by this engine; the receiver is read", key, funcFile[key])
+			if em.RecvMut {
+				states = append([]string{bi.Lean}, states...)
+				doc = fmt.Sprintf("`%s` (%s), a parameter: not translated by this engine; results and the new value of the receiver", key, funcFile[key])
+			}
+			x.envFn(name, bi.Lean, pts, rts, states, doc)
+			return x.invoke(qcallee{head: "env." + name, recvArg: b.lean, recvLv: recvLv, recvMut: em.RecvMut, recvWrap: "{X}", params: ps, res: rts, what: name}, e.Args, en)
+		}
 		sh, ok := qShapes[key]
 		if !ok || !sh.ok {
 			fail("call of %s, which is not a translated target listed before this one", key)
@@ -963,7 +1007,9 @@ func shapeWidth(sh qshape) int {
 	return n
 }
 
-// dispatcher: `<Sum>_<method>`: match on the variant, call the translated method of that record
+// dispatcher: `<Sum>_<method>`: match on the variant, call the translated method of that record.  An implementation
+// that recurses over the slab tree (a Rec target) is reached through the parameter `rec_` (that function at the
+// caller's depth), so that the recursion stays structural in the caller.
 func (x *qtrans) dispatcher(s *qSum, method string) qshape {
 	name := strings.TrimSuffix(s.Lean, "V") + "_" + method
 	key := "#" + name
@@ -981,13 +1027,18 @@ func (x *qtrans) dispatcher(s *qSum, method string) qshape {
 	m := qshape{ok: true, lean: name, res: shs[0].res}
 	m.params = make([]qparam, len(shs[0].params))
 	copy(m.params, shs[0].params)
-	for _, sh := range shs {
+	recDecl := ""
+	for vi, sh := range shs {
 		if len(sh.params) != len(m.params) || strings.Join(sh.res, ";") != strings.Join(m.res, ";") {
 			fail("dynamic dispatch of %s: the implementations have different signatures", method)
 		}
 		for i, p := range sh.params {
-			if p.typ != m.params[i].typ || p.kept != m.params[i].kept {
+			if p.typ != m.params[i].typ {
 				fail("dynamic dispatch of %s: the implementations have different signatures (parameter %d)", method, i)
+			}
+			if p.kept && !m.params[i].kept {
+				// an implementation that ignores the parameter (`_ SlabStorage`) and one that uses it
+				m.params[i].kept, m.params[i].name = true, p.name
 			}
 			m.params[i].mut = m.params[i].mut || p.mut
 			if p.consumed {
@@ -996,9 +1047,22 @@ func (x *qtrans) dispatcher(s *qSum, method string) qshape {
 		}
 		m.recvMut = m.recvMut || sh.recvMut
 		m.aborts = m.aborts || sh.aborts
+		if sh.fuel {
+			if m.recKey != "" {
+				fail("dynamic dispatch of %s: two recursive implementations", method)
+			}
+			m.recKey = s.Variants[vi].Struct + "." + method
+			rt := x.u.structLean(s.Variants[vi].Struct)
+			for _, p := range sh.params {
+				if p.kept && x.ti(p.typ).Kind != "drop" {
+					rt += " → " + paren(x.ti(p.typ).Lean)
+				}
+			}
+			recDecl = " (rec_ : " + rt + " → " + x.shapeResult(sh, x.u.structLean(s.Variants[vi].Struct)) + ")"
+		}
 	}
 	sumLean := x.u.sumLean(s)
-	decl, argv := "", ""
+	decl := ""
 	for i := range m.params {
 		p := &m.params[i]
 		if !p.kept || x.ti(p.typ).Kind == "drop" {
@@ -1008,15 +1072,23 @@ func (x *qtrans) dispatcher(s *qSum, method string) qshape {
 			p.name = fmt.Sprintf("arg%d", i)
 		}
 		decl += " (" + p.name + "_ : " + x.ti(p.typ).Lean + ")"
-		argv += " " + p.name + "_"
 	}
 	var b strings.Builder
-	fmt.Fprintf(&b, "/-- dynamic dispatch of `%s` on the variants of `%s` -/\ndef %s (env : %s) (x_ : %s)%s :\n    %s :=\n  match x_ with\n",
-		method, s.Lean, name, x.u.envType(), sumLean, decl, x.shapeResult(m, sumLean))
+	fmt.Fprintf(&b, "/-- dynamic dispatch of `%s` on the variants of `%s` -/\ndef %s (env : %s)%s (x_ : %s)%s :\n    %s :=\n  match x_ with\n",
+		method, s.Lean, name, x.u.envType(), recDecl, sumLean, decl, x.shapeResult(m, sumLean))
 	wm := shapeWidth(m)
 	for vi, va := range s.Variants {
 		sh := shs[vi]
+		argv := ""
+		for i, p := range sh.params {
+			if p.kept && x.ti(p.typ).Kind != "drop" {
+				argv += " " + m.params[i].name + "_"
+			}
+		}
 		call := sh.lean + " env s_" + argv
+		if sh.fuel {
+			call = "rec_ s_" + argv
+		}
 		w := shapeWidth(sh)
 		var parts []string
 		k := 0
